@@ -61,7 +61,14 @@ fn main() {
             let shc = sh.clone();
             let role = c.clone();
             let p = progs[c].clone();
-            handles.push(std::thread::spawn(move || client_main(shc, role, p)));
+            // client threads carry the name a pool worker of a same-named store would have: nothing the
+            // store does may depend on what the calling thread is called
+            handles.push(
+                std::thread::Builder::new()
+                    .name(format!("{}-pool_thread_{}", env.cfg.name, role))
+                    .spawn(move || client_main(shc, role, p))
+                    .unwrap(),
+            );
         }
         let deadline = Instant::now() + Duration::from_secs(10);
         let mut outcome = "finished";
